@@ -256,13 +256,48 @@ def run(ctx, rep, tier):
             res, m = B.solve("C:%s%s" % (kwtext, dct), r.assume, b_and(b_not(struct_eq(r.I, impl, exp, st)), b_not(sil)))
             if res == z3.sat:
                 report(B, rep, model_string(m, [kwtext, c1, dct, c2, "'"]), Adt("Action", variant, [concretize(m, exp)]) if not isinstance(concretize(m, exp), Adt) else concretize(m, exp), "format-argument")
+    # ------------------------------------------------------------- (D) word boundaries after a quoted argument; second argument of two-argument primaries
+    def blank(c):
+        return z3.Or(c == 32, c == 9, c == 10, c == 13)
+    for kw, shape in (("-name", "unary"), ("-fprint", "unary"), ("-xattr-match", "str"), ("-fprintf", "format")):
+        for quote in ('"', "'"):
+            for k in ((1, 2) if q else (1, 2, 3, 4)):
+                cs = [sym_char() for _ in range(k)]
+                if shape == "format":
+                    asm = [z3.Or(blank(c), z3.And(z3.UGE(c, 97), z3.ULE(c, 122))) for c in cs]
+                else:
+                    asm = [z3.Or(blank(c), wordchar(c)) for c in cs]
+                head = "%s %sab%s" % (kw, quote, quote)
+                r = B.parse([head] + cs, extra_assume=asm)
+                impl = impl_tree(r)
+                first = StringV([97, 98])
+                alts = []
+                if shape == "unary":
+                    alts.append((b_and(*[blank(c) for c in cs]), V.node_for(kw, [first])))
+                else:
+                    for i in range(1, k):
+                        for j in range(1, k - i + 1):
+                            g = b_and(*[blank(c) for c in cs[:i]], *[z3.Not(blank(c)) for c in cs[i:i + j]], *[blank(c) for c in cs[i + j:]])
+                            w = cs[i:i + j]
+                            if shape == "str":
+                                alts.append((g, V.node_for(kw, [first, StringV(w)])))
+                            else:
+                                for gf, fv in formatspec.scan(w, dev14):
+                                    alts.append((b_and(g, gf), V.node_for(kw, [first, fv]) if isinstance(fv, VecV) else V.NOT_IN_LANGUAGE))
+                inl = b_or(*[g for g, _ in alts])
+                exp = merge_many(alts + [(b_not(inl), V.NOT_IN_LANGUAGE)])
+                res, m = B.solve("D:%s:%s:k%d" % (kw, quote, k), r.assume, b_not(struct_eq(r.I, impl, exp, st)))
+                if res == z3.sat:
+                    report(B, rep, model_string(m, [head] + cs), concretize(m, exp), "argument-boundary")
+        if len(samples) < 20:
+            samples.append(dict(check="text glued to / following a quoted argument", keyword=kw, tail_lengths=[1, 2] if q else [1, 2, 3, 4]))
     cov = B.coverage_common()
     cov.update(explanation="(A) every keyword of the vocabulary (and operator / near-miss words) followed by 0..3 (4) symbolic word characters, alone "
                "and with its canonical argument: the whole word is looked up in the specification table; (B) argument-taking keywords followed "
                "by an argument word of k symbolic characters, compared with the table's argument recognisers (signed counts, sizes/times with "
-               "units, type lists, octal and symbolic modes, words); z3 decides equality of the tree (or rejection) for every word",
+               "units, type lists, octal and symbolic modes, words); (D) a quoted argument followed by 1..2 (4) symbolic characters (blank or word character) for one- and two-argument primaries: Ok exactly for blanks / blanks+second argument; z3 decides equality of the tree (or rejection) for every word",
                bounds=dict(tail_len=3 if q else 4, argument_len="1..3 (perm 3..5)" if q else "1..4 (perm 3..7, types 1..5)"), samples=samples,
-               outside="quoted arguments (C06), format strings (C14), numeric range (C07), two-argument primaries beyond their canonical form",
+               outside="quoting styles (C06), format strings (C14), numeric range (C07); two-argument primaries: quoted first argument 'ab' followed by 1..2 (4) characters",
                evaluations=len(rep.queries), distinct_nontrivial=len(rep.queries))
     rep.coverage = cov
 
